@@ -380,6 +380,13 @@ def draw_setup(
         if not (len(z) >= 3 and np.all(np.isfinite(z)) and np.all(np.diff(z) > 0) and all(np.all(np.isfinite(p)) for p in prof) and np.all(prof[4] > 0)):
             skipped += 1
             continue
+        if kind == "synthetic" and rng.random() < 0.15 and not np.allclose(prof[2], prof[3]):
+            # horizontal diffusivities that differ through the column and are capped at one common value at the last node (what is
+            # true of the top node is not true of the column)
+            kx_, ky_ = np.array(prof[2], dtype=float), np.array(prof[3], dtype=float)
+            kx_[-1] = ky_[-1] = 0.5 * (kx_[-1] + ky_[-1])
+            prof = (prof[0], prof[1], kx_, ky_, prof[4])
+            pdesc = dict(pdesc, horizontal_diffusivities_equal_at_top_node=True)
         kx, ky, _, _ = wavenumbers(nx, ny, dx, dy, px, py, modes)
         G = growth(z, prof, kx, ky)
         if G > gmax:
